@@ -712,8 +712,7 @@ def case_aseq_small(rng, ctx):
 
 
 def case_aseq_long(rng, ctx):
-    hi = 60 if ctx.tier == "quick" else 60
-    m = gen_mseq(rng, 13, hi)
+    m = gen_mseq(rng, 13, 60)
     aseq = mk_aseq(m, rng)
     log_obj(ctx, m)
     forms = slice_forms(ctx, m.start, m.end, on_aseq=True, rng=rng, nsample=25)
@@ -885,7 +884,6 @@ def check_copy_annotation(ctx, rng, an, feats):
     if snap(an)[1] != m_norm(feats):
         ctx.fail("copy_independent", "mutating an Annotation copy changed the original", features=feats_json(feats))
     c2 = an.copy()
-    an2_feats = list(feats) + [extra]
     an.add_feature(mk_feature(extra))
     if snap(c2)[1] != m_norm(feats):
         ctx.fail("copy_independent", "mutating the original changed an Annotation copy", features=feats_json(feats))
@@ -997,7 +995,6 @@ def case_rc_copy(rng, ctx):
         ctx.fail("rc_twice", "rc(rc(x)) != x", got=repr(rr)[:600], **detail)
     if sstr(rr.sequence) != m.s or rr.sequence_start != m.start or snap(rr.annotation)[1] != m_norm(m.feats):
         ctx.fail("rc_twice", "rc(rc(x)) differs from the model of x", **detail)
-    # the biological sequence of a uniform-strand feature is the same on both objects (not judged beyond the model above)
     # ---- copies
     check_copy_annotation(ctx, rng, aseq.annotation, m.feats)
     if ctx.allowed("aseq_copy") and len(m.s) > 0:
